@@ -49,8 +49,6 @@ struct LaneInfo<'a> {
     // ---- value-like lanes
     /// body -> version index (bodies are unique except the empty one).
     version_of: HashMap<Bytes, usize>,
-    /// Tickets (t0) of the emissions (standard or sync) that carried an empty body.
-    empty_emitted: Vec<u64>,
     // ---- supply lanes
     item_of: HashMap<Bytes, usize>,
     items: Vec<&'a Emit>,
@@ -65,8 +63,6 @@ struct LaneInfo<'a> {
     timeline: Vec<Vec<(u64, KS)>>,
     /// (ticket, lane map after the change) in order.
     states: Vec<(u64, BTreeMap<usize, String>)>,
-    /// every body (as sent on the wire towards remotes) of the *other* lanes, to classify strays
-    any_emitted: usize,
 }
 
 fn key_id(keys: &mut Vec<Value>, k: &Value) -> usize {
@@ -86,7 +82,6 @@ fn build_lane<'a>(idx: usize, spec: &'a LaneSpec, rec: &'a LaneRec) -> LaneInfo<
         fail_t: rec.failed.map(|f| f.0),
         hard_fail: rec.failed.and_then(|f| if f.1 == FailHow::CloseWriter { None } else { Some(f.1) }),
         version_of: HashMap::new(),
-        empty_emitted: vec![],
         item_of: HashMap::new(),
         items: vec![],
         keys: vec![],
@@ -95,7 +90,6 @@ fn build_lane<'a>(idx: usize, spec: &'a LaneSpec, rec: &'a LaneRec) -> LaneInfo<
         first_clear_t0: None,
         timeline: vec![],
         states: vec![],
-        any_emitted: rec.emitted.len(),
     };
     for (i, (_, b)) in rec.versions.iter().enumerate() {
         if !b.is_empty() {
@@ -105,9 +99,6 @@ fn build_lane<'a>(idx: usize, spec: &'a LaneSpec, rec: &'a LaneRec) -> LaneInfo<
     for e in &rec.emitted {
         match &e.what {
             Emitted::Std(Payload::Bytes(b)) | Emitted::SyncEv(_, Payload::Bytes(b)) => {
-                if b.is_empty() {
-                    li.empty_emitted.push(e.t0);
-                }
                 if spec.kind == LK::Supply {
                     li.item_of.insert(b.clone(), li.items.len());
                     li.items.push(e);
@@ -218,6 +209,10 @@ fn split_by_lane<'a>(frames: &'a [Frame], reqs: &'a [Req]) -> BTreeMap<String, L
 
 fn started_before(reqs: &[&Req], kind: ReqKind, t: u64) -> usize {
     reqs.iter().filter(|r| r.kind == kind && r.t0 < t).count()
+}
+
+fn e_lt(a: Option<u64>, b: u64) -> bool {
+    a.map_or(false, |a| a < b)
 }
 
 fn stalled_between(s: &Session, a: u64, b: u64) -> bool {
@@ -367,6 +362,7 @@ pub fn check_all(obs: &Obs, out: &mut CaseOut) -> Summary {
             let mut last_version: Option<usize> = None;
             let mut copies: HashMap<usize, usize> = HashMap::new();
             let mut last_body: Option<Bytes> = None;
+            let mut empties_seen = 0usize;
             // map
             let mut replica: BTreeMap<usize, String> = BTreeMap::new();
             let mut key_ptr: HashMap<usize, usize> = HashMap::new();
@@ -490,7 +486,10 @@ pub fn check_all(obs: &Obs, out: &mut CaseOut) -> Summary {
                                             };
                                             out.violation(
                                                 "C03",
-                                                format!("snapshot-outside-window/map/{class}/link-requested={}/key={}", links_started > 0, li.keys.get(k).map_or("coherent", key_fact)),
+                                                match li.keys.get(k).map_or("coherent", key_fact) {
+                                                    "coherent" => format!("snapshot-outside-window/map/{class}/link-requested={}/key=coherent", links_started > 0),
+                                                    fact => format!("snapshot-outside-window/map/key={fact}"),
+                                                },
                                                 "at synced a key of the remote's replica is not in a state the lane held between the sync request and that instant",
                                                 json!({"lane": lane, "key": li.keys.get(k).map(|v| format!("{v:?}")), "replica": format!("{st:?}"), "timeline": format!("{tl:?}"), "window": [t_q, t_s]}),
                                             );
@@ -555,7 +554,21 @@ pub fn check_all(obs: &Obs, out: &mut CaseOut) -> Summary {
                             LK::Value | LK::Command => {
                                 sum.events_byte_checked += 1;
                                 if f.body.is_empty() {
-                                    if !li.empty_emitted.iter().any(|t| *t < f.ticket) {
+                                    // The empty body is legal only as often as the lane wrote it (to everybody, or
+                                    // to this remote in a sync answer) before this receipt.
+                                    empties_seen += 1;
+                                    let allowed = li
+                                        .rec
+                                        .emitted
+                                        .iter()
+                                        .filter(|e| e.t0 < f.ticket)
+                                        .filter(|e| match &e.what {
+                                            Emitted::Std(Payload::Bytes(b)) => b.is_empty(),
+                                            Emitted::SyncEv(id, Payload::Bytes(b)) => *id == s.id && b.is_empty(),
+                                            _ => false,
+                                        })
+                                        .count();
+                                    if empties_seen > allowed {
                                         stray(out, &f.body);
                                     } else {
                                         out.count("legit-empty-body-delivered");
@@ -718,7 +731,10 @@ pub fn check_all(obs: &Obs, out: &mut CaseOut) -> Summary {
                                         }
                                         None => out.violation(
                                             "C02",
-                                            format!("per-key-order/{}/key={}", if matches!(st, KS::Absent) { "removal" } else { "update" }, li.keys.get(k).map_or("coherent", key_fact)),
+                                            match li.keys.get(k).map_or("coherent", key_fact) {
+                                                "coherent" => format!("per-key-order/{}/key=coherent", if matches!(st, KS::Absent) { "removal" } else { "update" }),
+                                                fact => format!("per-key-order/key={fact}"),
+                                            },
                                             "the states a remote saw for a key are not an in-order subsequence of the states that key held",
                                             json!({"lane": lane, "key": li.keys.get(k).map(|v| format!("{v:?}")), "state": format!("{st:?}"), "timeline": format!("{tl:?}"), "position": p}),
                                         ),
@@ -820,7 +836,7 @@ pub fn check_all(obs: &Obs, out: &mut CaseOut) -> Summary {
                                 let bad_key = truth.keys().chain(rep.keys()).filter(|k| truth.get(*k) != rep.get(*k)).filter_map(|k| li.keys.get(*k)).map(key_fact).find(|f| *f != "coherent").unwrap_or("coherent");
                                 out.violation(
                                     "C02",
-                                    format!("replica-diverged/{class}/synced={synced_at_q}/key={bad_key}"),
+                                    if bad_key == "coherent" { format!("replica-diverged/{class}/synced={synced_at_q}/key=coherent") } else { format!("replica-diverged/key={bad_key}") },
                                     "the agent is quiescent and the remote has drained its channel, but applying the operations it received does not give the lane's map",
                                     json!({"lane": lane, "replica": format!("{rep:?}"), "lane_map": format!("{truth:?}"), "keys": format!("{:?}", li.keys)}),
                                 );
@@ -906,7 +922,14 @@ pub fn check_all(obs: &Obs, out: &mut CaseOut) -> Summary {
                     let asked = lf.reqs.iter().filter(|r| matches!(r.kind, ReqKind::Link | ReqKind::Sync) && r.t0 < open_since).map(|r| r.t0).last().unwrap_or(open_since);
                     let a = if end_request.map_or(false, |t| t < tc) { end_request.unwrap_or(asked).min(asked) } else { asked };
                     if !stalled_between(s, a, tc) {
-                        let why = if end_request.map_or(false, |t| t < tc) { end_kind } else { "remote-removed" };
+                        let timed_out = matches!(v.completion, Some((_, Some(DisconnectionReason::AgentTimedOut))));
+                        let why = if timed_out {
+                            "agent-timed-out"
+                        } else if end_request.map_or(false, |t| t < tc) {
+                            end_kind
+                        } else {
+                            "remote-removed"
+                        };
                         out.violation(
                             "C04",
                             format!("link-not-closed-before-channel-closed/{kind}/{why}"),
@@ -931,7 +954,10 @@ pub fn check_all(obs: &Obs, out: &mut CaseOut) -> Summary {
                     let ended = end_request.map_or(false, |e| e < t);
                     match reason {
                         DisconnectionReason::AgentStoppedExternally => {
-                            if !ended {
+                            if !ended && obs.cfg.inactive_ms.is_some() {
+                                // inactivity with no lane left alive: the runtime stops cleanly by itself
+                                out.count("completion-stopped-after-inactivity");
+                            } else if !ended {
                                 out.violation("C04", "completion/agent-stopped-without-stop", "a remote was completed with AgentStoppedExternally although nobody stopped the agent", json!({"at": t}));
                             }
                         }
@@ -951,6 +977,8 @@ pub fn check_all(obs: &Obs, out: &mut CaseOut) -> Summary {
                             if dropped_reader.is_none() {
                                 for (lane, lf) in &by_lane {
                                     let (open, since, _) = open_before(&lf.frames, t);
+                                    // the frame was written when the request was handled, maybe long before it was read
+                                    let since = lf.reqs.iter().filter(|r| matches!(r.kind, ReqKind::Link | ReqKind::Sync) && r.t0 < since).map(|r| r.t0).last().unwrap_or(since);
                                     let unlinking = lf.reqs.iter().any(|r| r.kind == ReqKind::Unlink && r.t0 > since);
                                     let lane_failed = lane_by_name.get(lane.as_str()).map_or(false, |i| lanes[*i].fail_t.is_some());
                                     // frames still in flight to a stalled reader say nothing
@@ -958,6 +986,16 @@ pub fn check_all(obs: &Obs, out: &mut CaseOut) -> Summary {
                                         out.violation("C04", "completion/pruned-while-linked", "a remote was pruned for inactivity while it held an open link", json!({"lane": lane, "linked_at": since, "pruned_at": t}));
                                     }
                                 }
+                            }
+                        }
+                        DisconnectionReason::AgentTimedOut => {
+                            if obs.cfg.inactive_ms.is_none() {
+                                out.violation("C04", "completion/agent-timed-out-without-timeout", "a remote was completed with AgentTimedOut although the inactivity timeout is effectively infinite", json!({"at": t}));
+                            } else if end_request.map_or(false, |e| e < t) && obs.agent_finished.map_or(true, |f| e_lt(end_request, f)) {
+                                // a stop was requested first: the reason should say so (the vote may still have won the race)
+                                out.count("completion-agent-timed-out-after-stop-request");
+                            } else {
+                                out.count("completion-agent-timed-out");
                             }
                         }
                         other => {
@@ -985,7 +1023,7 @@ pub fn check_all(obs: &Obs, out: &mut CaseOut) -> Summary {
             // a clean stop with everybody reading: the reason is AgentStoppedExternally for every remote still registered
             if let (Some(e), Some(fin)) = (end_request, obs.agent_finished) {
                 if let Some((t, Some(reason))) = v.completion {
-                    if t > e && t <= fin + 4 && !matches!(reason, DisconnectionReason::AgentStoppedExternally | DisconnectionReason::ChannelClosed | DisconnectionReason::RemoteTimedOut) {
+                    if t > e && t <= fin + 4 && !matches!(reason, DisconnectionReason::AgentStoppedExternally | DisconnectionReason::ChannelClosed | DisconnectionReason::RemoteTimedOut | DisconnectionReason::AgentTimedOut) {
                         out.violation("C04", format!("completion/wrong-reason-at-stop/{}", common::sanitize_sig(&format!("{reason:?}"))), "the agent was stopped but a remote was completed with another reason", json!({"reason": format!("{reason:?}")}));
                     }
                 }
@@ -1264,6 +1302,10 @@ fn check_reporting(obs: &Obs, lanes: &[LaneInfo], views: &[SView], out: &mut Cas
     }
     for cp in &obs.checkpoints {
         let c = cp.ticket;
+        // the agent stopped by itself (inactivity) before this checkpoint: the reporters are gone with it
+        if obs.agent_finished.map_or(false, |f| f < c) {
+            break;
+        }
         sum.checkpoints += 1;
         out.events += 1 + cp.lanes.len() as u64;
         let mut total_lo = 0u64;
@@ -1418,14 +1460,14 @@ fn check_reporting(obs: &Obs, lanes: &[LaneInfo], views: &[SView], out: &mut Cas
             if snap.event_count < lo {
                 out.violation(
                     "C20",
-                    format!("events/lane/lost/{}/lane-link-count-under={under_flag}", if pure { "exact" } else { "bounds" }),
+                    if under_flag { "events/lane/lost/lane-link-count-under=true".to_string() } else { format!("events/lane/lost/{}/lane-link-count-under=false", if pure { "exact" } else { "bounds" }) },
                     "the event count reported for a lane is lower than the number of (event, linked remote) deliveries in that phase",
                     json!({"lane": name, "kind": kind, "reported": snap.event_count, "expected": [lo, hi], "events": n_std, "linked": p_cur, "reported_links": snap.link_count, "checkpoint": c}),
                 );
             } else if snap.event_count > hi {
                 out.violation(
                     "C20",
-                    format!("events/lane/overcounted/{}/phantom-link={}", if pure { "exact" } else { "bounds" }, over_flag || late_sync_answer),
+                    if over_flag || late_sync_answer { "events/lane/overcounted/phantom-link=true".to_string() } else { format!("events/lane/overcounted/{}/phantom-link=false", if pure { "exact" } else { "bounds" }) },
                     "the event count reported for a lane is higher than the number of (event, linked remote) deliveries possible in that phase",
                     json!({"lane": name, "reported": snap.event_count, "expected": [lo, hi], "events": n_std, "sync_events": n_sync_ev, "synced": n_synced, "linked": p_cur, "checkpoint": c}),
                 );
@@ -1464,9 +1506,9 @@ fn check_reporting(obs: &Obs, lanes: &[LaneInfo], views: &[SView], out: &mut Cas
                     out.violation("C20", "link-count/aggregate/over", "the aggregate uplink count is higher than the number of links remotes can hold", json!({"reported": agg.link_count, "proven": total_lo, "possible": total_hi, "checkpoint": c}));
                 }
                 if agg.event_count < ev_lo_total {
-                    out.violation("C20", format!("events/aggregate/lost/{}/some-lane-link-count-under={}", if all_pure { "exact" } else { "bounds" }, any_under || prev_any_under), "the aggregate event count is lower than the number of deliveries in that phase", json!({"reported": agg.event_count, "expected": [ev_lo_total, ev_hi_total], "checkpoint": c}));
+                    out.violation("C20", if any_under || prev_any_under { "events/aggregate/lost/some-lane-link-count-under=true".to_string() } else { format!("events/aggregate/lost/{}/some-lane-link-count-under=false", if all_pure { "exact" } else { "bounds" }) }, "the aggregate event count is lower than the number of deliveries in that phase", json!({"reported": agg.event_count, "expected": [ev_lo_total, ev_hi_total], "checkpoint": c}));
                 } else if agg.event_count > ev_hi_total {
-                    out.violation("C20", format!("events/aggregate/overcounted/{}/phantom-link={}", if all_pure { "exact" } else { "bounds" }, any_over || prev_any_over || any_late), "the aggregate event count is higher than the number of deliveries possible in that phase", json!({"reported": agg.event_count, "expected": [ev_lo_total, ev_hi_total], "checkpoint": c}));
+                    out.violation("C20", if any_over || prev_any_over || any_late { "events/aggregate/overcounted/phantom-link=true".to_string() } else { format!("events/aggregate/overcounted/{}/phantom-link=false", if all_pure { "exact" } else { "bounds" }) }, "the aggregate event count is higher than the number of deliveries possible in that phase", json!({"reported": agg.event_count, "expected": [ev_lo_total, ev_hi_total], "checkpoint": c}));
                 }
                 cum_cmd_agg += agg.command_count;
                 if cum_cmd_agg < cmd_lo_total {
